@@ -93,7 +93,8 @@ var zzC07Clients = map[string]zzC07Client{
 	"cid":   {ip: "192.168.10.6", cid: "kitchen-tv", cname: "Kitchen TV"},
 	// A second device behind the same address, told apart by its ClientID.
 	"cid2": {ip: "192.168.10.6", cid: "study-pc", cname: "Study PC"},
-	"named": {ip: "10.20.30.40", cname: "Dads-Laptop"},
+	// Capitals inside the name, for lower-case terms beginning with s and k.
+	"named": {ip: "10.20.30.40", cname: "Dads-Samsung-Kindle"},
 	"v6":    {ip: "2001:db8::17"},
 }
 
@@ -117,8 +118,10 @@ var zzC07Terms = map[string]string{
 	"ip_v6":       "2001:db8",
 	"cid_sub":     "kitchen",
 	"cid_exact":   `"KITCHEN-tv"`,
-	"cname_sub":   "laptop",
-	"cname_exact": `"dads-laptop"`,
+	"cname_sub":   "amsung",
+	"cname_exact": `"dads-samsung-kindle"`,
+	"cname_s":     "samsung",
+	"cname_k":     "kindle",
 	"nomatch":     "zzz-nothing",
 	// Degenerate terms.
 	"q_one":    `"`,
@@ -146,7 +149,7 @@ func zzC07FindClient(ids []string) (c *Client, err error) {
 		case "study-pc":
 			return &Client{Name: "Study PC"}, nil
 		case "10.20.30.40":
-			return &Client{Name: "Dads-Laptop"}, nil
+			return &Client{Name: "Dads-Samsung-Kindle"}, nil
 		}
 	}
 
@@ -550,9 +553,21 @@ func zzC07NewLog(dir string, seed int64) (x *zzC07Log) {
 }
 
 // open creates the query log object on x.dir the way home does.
-func (x *zzC07Log) open(memSize int, fileEnabled, enabled, anon bool) (err error) {
+// zzC07IgnoredHost is the host name the ignore list of the spec holds when
+// `ign' is set (QueryLog!IgnName = "com"), written as a user would write it.
+const zzC07IgnoredHost = "example.com"
+
+func zzC07Ignored(on bool) (l []string) {
+	if on {
+		return []string{zzC07IgnoredHost}
+	}
+
+	return []string{}
+}
+
+func (x *zzC07Log) open(memSize int, fileEnabled, enabled, anon bool, ignored ...string) (err error) {
 	x.handlers = map[string]http.HandlerFunc{}
-	ign, err := aghnet.NewIgnoreEngine(nil)
+	ign, err := aghnet.NewIgnoreEngine(ignored)
 	if err != nil {
 		return err
 	}
@@ -857,6 +872,7 @@ type zzC07State struct {
 	Fe    bool  `json:"fe"`
 	En    bool  `json:"en"`
 	An    bool  `json:"an"`
+	Ig    bool  `json:"ig"`
 	Ck    int   `json:"ck"`
 	Pal   int   `json:"pal"`
 }
@@ -889,7 +905,7 @@ func (x *zzC07Log) project(pal int) (s zzC07State, err error) {
 	return zzC07State{
 		Mem: zzC07NZ(x.ids(x.ringTimes())), Cur: zzC07NZ(x.ids(cur)), Rot: zzC07NZ(x.ids(rot)),
 		Batch: zzC07NZ(x.batchIDs), Fp: fp, Ms: int(c.MemSize), Fe: c.FileEnabled, En: c.Enabled,
-		An: c.AnonymizeClientIP, Ck: x.clock, Pal: pal,
+		An: c.AnonymizeClientIP, Ig: len(c.Ignored.Values()) > 0, Ck: x.clock, Pal: pal,
 	}, nil
 }
 
@@ -1043,7 +1059,10 @@ type zzC07Q struct {
 	Oldest               int
 	SigData              []int
 	Sigs                 []zzC07Sig
-	Scan                 int
+	// Alts are the other admissible answers (see QueryLog!Hidden): replies
+	// for an exact row, selected sequences for a window row.
+	Alts []zzC07Sig
+	Scan int
 	Tag                  string
 }
 
@@ -1063,16 +1082,38 @@ func (q *zzC07Q) UnmarshalJSON(b []byte) (err error) {
 		return err
 	}
 
-	if len(raw) != 10 && len(raw) != 11 {
+	if len(raw) != 11 && len(raw) != 12 {
 		return fmt.Errorf("query tuple of length %d", len(raw))
 	}
 
-	if len(raw) == 11 {
+	if len(raw) == 12 {
 		// The orchestrator's tag of the row: which part of the observation
 		// table it comes from.
-		if err = json.Unmarshal(raw[10], &q.Tag); err != nil {
+		if err = json.Unmarshal(raw[11], &q.Tag); err != nil {
 			return err
 		}
+	}
+
+	var alts [][]json.RawMessage
+	if err = json.Unmarshal(raw[10], &alts); err != nil {
+		return err
+	}
+
+	for _, a := range alts {
+		if len(a) != 2 {
+			return fmt.Errorf("alternative of length %d", len(a))
+		}
+
+		v := zzC07Sig{Name: "alt"}
+		if err = json.Unmarshal(a[0], &v.Data); err != nil {
+			return err
+		}
+
+		if err = json.Unmarshal(a[1], &v.Oldest); err != nil {
+			return err
+		}
+
+		q.Alts = append(q.Alts, v)
 	}
 
 	dst := []any{&q.Older, &q.Limit, &q.Offset, &q.Term, &q.Status, &q.Class, &q.Data, &q.Oldest}
@@ -1117,8 +1158,13 @@ func (q *zzC07Q) MarshalJSON() (b []byte, err error) {
 		sigs = append(sigs, []any{sg.Name, zzC07NZ(sg.Data), sg.Oldest})
 	}
 
+	alts := []any{}
+	for _, a := range q.Alts {
+		alts = append(alts, []any{zzC07NZ(a.Data), a.Oldest})
+	}
+
 	return json.Marshal([]any{
-		q.Older, q.Limit, q.Offset, q.Term, q.Status, q.Class, zzC07NZ(q.Data), q.Oldest, sigs, q.Scan,
+		q.Older, q.Limit, q.Offset, q.Term, q.Status, q.Class, zzC07NZ(q.Data), q.Oldest, sigs, q.Scan, alts,
 	})
 }
 
@@ -1295,9 +1341,29 @@ func (x *zzC07Log) windowOK(older, limit int, universe []int, r *zzC07Reply) (ok
 func (x *zzC07Log) admissible(q *zzC07Q, r *zzC07Reply) (ok bool) {
 	switch q.Class {
 	case "exact":
-		return r.St == "ok" && zzC07EqInts(r.Data, q.Data) && r.Oldest == q.Oldest
+		if r.St == "ok" && zzC07EqInts(r.Data, q.Data) && r.Oldest == q.Oldest {
+			return true
+		}
+
+		for _, a := range q.Alts {
+			if r.St == "ok" && zzC07EqInts(r.Data, a.Data) && r.Oldest == a.Oldest {
+				return true
+			}
+		}
+
+		return false
 	case "window":
-		return x.windowOK(q.Older, q.Limit, q.Data, r)
+		if x.windowOK(q.Older, q.Limit, q.Data, r) {
+			return true
+		}
+
+		for _, a := range q.Alts {
+			if x.windowOK(q.Older, q.Limit, a.Data, r) {
+				return true
+			}
+		}
+
+		return false
 	default:
 		return r.St == "bad_request" || r.St == "ok" && zzC07IsSubseq(r.Data, q.Data)
 	}
@@ -1758,7 +1824,7 @@ func (x *zzC07Log) step(in *zzC07Input, st *zzC07Step, expectFp bool) (err error
 	case "conf":
 		body, _ := json.Marshal(map[string]any{
 			"enabled": zzC07ArgBool(st.Args, "en"), "anonymize_client_ip": zzC07ArgBool(st.Args, "an"),
-			"interval": float64(timeutil.Day / time.Millisecond), "ignored": []string{},
+			"interval": float64(timeutil.Day / time.Millisecond), "ignored": zzC07Ignored(zzC07ArgBool(st.Args, "ig")),
 		})
 		code, resp, pan := x.serve(http.MethodPut, "/control/querylog/config/update", "", body)
 		if pan != "" || code != http.StatusOK {
@@ -1772,7 +1838,7 @@ func (x *zzC07Log) step(in *zzC07Input, st *zzC07Step, expectFp bool) (err error
 		}
 
 		if err == nil {
-			err = x.open(zzC07ArgInt(st.Args, "ms"), c.FileEnabled, c.Enabled, c.AnonymizeClientIP)
+			err = x.open(zzC07ArgInt(st.Args, "ms"), c.FileEnabled, c.Enabled, c.AnonymizeClientIP, c.Ignored.Values()...)
 		}
 
 		if err == nil {
@@ -1854,7 +1920,7 @@ func (h *zzC07Harness) newRun(id, init int) (r *zzC07Run) {
 
 	x := zzC07NewLog(dir, h.seed*1000003+int64(id))
 	st := h.in.states[init].St
-	if err = x.open(st.Ms, st.Fe, st.En, st.An); err != nil {
+	if err = x.open(st.Ms, st.Fe, st.En, st.An, zzC07Ignored(st.Ig)...); err != nil {
 		h.t.Fatalf("opening query log: %v", err)
 	}
 
@@ -1995,7 +2061,17 @@ func (x *zzC07Log) signature(q *zzC07Q, r *zzC07Reply) (sig string) {
 				return sg.Name
 			}
 		case "window":
-			if x.windowOK(q.Older, q.Limit, sg.Data, r) {
+			if sg.Name == "hid" {
+				// An empty page that says "end", entries still to come, and a
+				// hidden on-disk record between the cursor and the next one.
+				if r.St == "ok" && len(r.Data) == 0 && r.Oldest == 0 && len(q.Data) > 0 {
+					for _, h := range sg.Data {
+						if (q.Older == 0 || h < q.Older) && h > q.Data[0] {
+							return sg.Name
+						}
+					}
+				}
+			} else if x.windowOK(q.Older, q.Limit, sg.Data, r) {
 				return sg.Name
 			}
 		}
@@ -2114,9 +2190,13 @@ func (r *zzC07Run) windowChain(row *zzC07StateRow, q0 *zzC07Q) {
 		q := *q0
 		q.Older = cur
 		q.Data = zzC07Below(q0.Data, cur)
-		q.Sigs = nil
+		q.Sigs, q.Alts = nil, nil
 		for _, sg := range q0.Sigs {
 			q.Sigs = append(q.Sigs, zzC07Sig{Name: sg.Name, Data: zzC07Below(sg.Data, cur)})
+		}
+
+		for _, a := range q0.Alts {
+			q.Alts = append(q.Alts, zzC07Sig{Name: a.Name, Data: zzC07Below(a.Data, cur)})
 		}
 
 		if cur != 0 && len(r.x.exact) > cur/2 && r.x.exact[cur/2] == 0 {
@@ -2743,6 +2823,7 @@ func TestZZVerifC07Trace(t *testing.T) {
 		Ms    int   `json:"ms"`
 		En    bool  `json:"en"`
 		An    bool  `json:"an"`
+		Ig    bool  `json:"ig"`
 		Clock int   `json:"ck"`
 	}
 
@@ -2769,7 +2850,7 @@ func TestZZVerifC07Trace(t *testing.T) {
 		}
 
 		m := map[string]any{"ev": ev, "s": proj{
-			Mem: compact(s.Mem), Cur: compact(s.Cur), Rot: compact(s.Rot), Fp: s.Fp, Ms: s.Ms, En: s.En, An: s.An,
+			Mem: compact(s.Mem), Cur: compact(s.Cur), Rot: compact(s.Rot), Fp: s.Fp, Ms: s.Ms, En: s.En, An: s.An, Ig: s.Ig,
 			Clock: s.Ck,
 		}}
 		for k, v := range extra {
@@ -2783,7 +2864,7 @@ func TestZZVerifC07Trace(t *testing.T) {
 			}
 		}
 
-		for _, k := range []string{"ms", "en", "an", "n"} {
+		for _, k := range []string{"ms", "en", "an", "ig", "n"} {
 			if _, ok := m[k]; !ok {
 				m[k] = 0
 			}
@@ -3015,12 +3096,13 @@ func TestZZVerifC07Trace(t *testing.T) {
 			emit("clear", nil)
 		case roll < 992:
 			enabled, anon = rng.Intn(4) != 0, rng.Intn(3) == 0
-			err := x.step(nil, &zzC07Step{Act: "conf", Args: map[string]any{"en": enabled, "an": anon}}, false)
+			ig := rng.Intn(3) == 0
+			err := x.step(nil, &zzC07Step{Act: "conf", Args: map[string]any{"en": enabled, "an": anon, "ig": ig}}, false)
 			if err != nil {
 				t.Fatalf("conf: %v", err)
 			}
 
-			emit("conf", map[string]any{"en": zzC07B2I(enabled), "an": zzC07B2I(anon)})
+			emit("conf", map[string]any{"en": zzC07B2I(enabled), "an": zzC07B2I(anon), "ig": zzC07B2I(ig)})
 		default:
 			nm := memSizes[rng.Intn(len(memSizes))]
 			if nm == 0 && !fe {
@@ -3076,8 +3158,11 @@ func zzC07ScanLog(t *testing.T, x *zzC07Log, emit func(ev string, extra map[stri
 
 	bulk(3, "idn", "named", "allow")
 	bulk(2, "quo", "cid2", "block")
+	// One record of the name that gets ignored later, placed so that the
+	// first scan window of a request (50000 records) ends exactly on it.
+	bulk(1, "com", "plain", "notfound")
 	flush()
-	bulk(zzC07DefaultScan+7, "org", "plain", "notfound")
+	bulk(zzC07DefaultScan-1, "org", "plain", "notfound")
 	flush()
 	bulk(4, "sub", "cid", "notfound")
 	if x.discard != "" {
@@ -3103,17 +3188,31 @@ func zzC07ScanLog(t *testing.T, x *zzC07Log, emit func(ev string, extra map[stri
 		return r
 	}
 
-	for _, f := range [][2]string{{"idn_puny", "none"}, {"cname_exact", "whitelisted"}, {"nomatch", "none"}, {"sub_example", "blocked"}, {"none", "whitelisted"}} {
-		cur := 0
-		for range 8 {
-			r := ask(&zzC07Q{Older: cur, Limit: 2, Term: f[0], Status: f[1]})
-			if r.St != "ok" || r.Oldest <= 0 {
-				break
-			}
+	chains := func() {
+		for _, f := range [][2]string{{"idn_puny", "none"}, {"cname_exact", "whitelisted"}, {"nomatch", "none"}, {"sub_example", "blocked"}, {"none", "whitelisted"}} {
+			cur := 0
+			for range 8 {
+				r := ask(&zzC07Q{Older: cur, Limit: 2, Term: f[0], Status: f[1]})
+				if r.St != "ok" || r.Oldest <= 0 {
+					break
+				}
 
-			cur = r.Oldest
+				cur = r.Oldest
+			}
 		}
 	}
+
+	chains()
+
+	// The same searches with that name on the ignore list: its record is now
+	// hidden, everything else must still be reachable.
+	err := x.step(nil, &zzC07Step{Act: "conf", Args: map[string]any{"en": true, "an": false, "ig": true}}, false)
+	if err != nil {
+		t.Fatalf("conf: %v", err)
+	}
+
+	emit("conf", map[string]any{"en": 1, "an": 0, "ig": 1})
+	chains()
 
 	ask(&zzC07Q{Limit: 10, Term: "none", Status: "none"})
 	w.put(map[string]any{"ev": "summary", "lines": 0, "records": x.clock, "discard": x.discard,
